@@ -1,7 +1,8 @@
 """C18 — levels and quantities interconvert by the logarithmic definition."""
 from __future__ import annotations
 
-from decimal import Decimal, getcontext
+import decimal
+from decimal import Decimal
 from fractions import Fraction
 
 from .. import core, kit, oracle
@@ -21,7 +22,6 @@ ASSUMPTIONS = [
     "reference, the conversion tolerance (1e-5 per degree + size interval) is propagated through the logarithm",
 ]
 SHARDS = {"quick": 2, "thorough": 8}
-getcontext().prec = 60
 
 
 def D(x):
@@ -30,7 +30,22 @@ def D(x):
     return Decimal(x)
 
 
+def lib():
+    """the library computes under the default decimal context; the harness's own arithmetic around it runs in a
+    60-digit one (set for the duration of run())"""
+    return decimal.localcontext(decimal.DefaultContext)
+
+
 def run(ctx):
+    ambient = decimal.getcontext().copy()
+    decimal.setcontext(decimal.Context(prec=60))
+    try:
+        return _run(ctx)
+    finally:
+        decimal.setcontext(ambient)
+
+
+def _run(ctx):
     env = kit.Env(ctx)
     m, rng, orc, pools = env.m, ctx.rng, env.orc, env.pools
     U, P = m.Unit._by_name, pools.prefixes
@@ -125,7 +140,8 @@ def run(ctx):
         logarithm, base, prefix = families[fname]
         rname, ref, k, alts = rng.choice(refs)
         try:
-            lu = logarithm[ref]
+            with lib():
+                lu = logarithm[ref]
         except Exception as e:
             ctx.violation(f"C18:construct:{type(e).__name__}", f"{fname}[{rname}] raised {e}", {"family": fname, "ref": rname})
             continue
@@ -159,7 +175,8 @@ def run(ctx):
         extra_abs = Decimal(k) / D(prefix) * conv_rel / base.ln()
         state["expect"] = {"kind": "level", "want": want, "extra_abs": extra_abs, "desc": f"({q}).level({fname}[{rname}])", "case": case}
         try:
-            lv = q.level(lu)
+            with lib():
+                lv = q.level(lu)
         except Exception:
             state["expect"] = None
             continue
@@ -173,18 +190,21 @@ def run(ctx):
         want_q = D(ref.magnitude) * D(oracle.prefix_value(ref.unit.prefix)) * (D(xl) * D(prefix) / Decimal(k) * base.ln()).exp()
         state["expect"] = {"kind": "quantify", "want": want_q, "dimension": ref.unit.dimension, "desc": f"({xl!r} {fname}[{rname}]).quantify()", "case": case}
         try:
-            back_q = (xl * lu).quantify()
+            with lib():
+                back_q = (xl * lu).quantify()
         except Exception:
             back_q = None
         state["expect"] = None
         # round trips
         try:
             ctx.count("round_trips/level-quantity-level")
-            l2 = back_q.level(lu)
+            with lib():
+                l2 = back_q.level(lu)
             if abs(D(l2.magnitude) - D(xl)) > abs(D(xl)) * Decimal("1e-9") + Decimal("1e-9"):
                 ctx.violation("C18:round-trip:level-quantity-level", f"{xl!r} {fname}[{rname}] -> {back_q!r} -> {l2.magnitude!r}", case)
             ctx.count("round_trips/quantity-level-quantity")
-            q2 = lv.quantify()
+            with lib():
+                q2 = lv.quantify()
             a_si, b_si = orc.si_value(q.magnitude, q.unit), orc.si_value(q2.magnitude, q2.unit)
             mid_a, mid_b = (a_si[0] + a_si[1]) / 2, (b_si[0] + b_si[1]) / 2
             if abs(mid_a - mid_b) > abs(mid_a) * (Fraction(1, 10**8) + Fraction(conv_rel) * 2):
@@ -194,12 +214,16 @@ def run(ctx):
         # a level compares equal (within rounding) to the quantity it denotes, both orders
         try:
             ctx.count("equality/level-vs-quantity")
-            ap = m.approximately(q, 1e-6 + core.sf(conv_rel) * 2)
-            e1, e2 = (lv == ap), (ap == lv)
+            tol_eq = 1e-6 + core.sf(conv_rel) * 2
+            with lib():
+                ap = m.approximately(q, tol_eq)
+                e1, e2 = (lv == ap), (ap == lv)
             if not (e1 and e2):
                 ctx.violation("C18:level-not-equal-to-its-quantity", f"{lv!r} == approximately({q!r}) is {e1}, reverse {e2}", case)
-            far = m.approximately(Q(q.magnitude * 3 / 2, q.unit), 1e-6)
-            if (lv == far) or (far == lv):
+            with lib():
+                far = m.approximately(Q(q.magnitude * 3 / 2, q.unit), 1e-6)
+                far_equal = (lv == far) or (far == lv)
+            if far_equal:
                 ctx.violation("C18:level-equal-to-a-different-quantity", f"{lv!r} == approximately(1.5*q)", case)
         except Exception as e:
             ctx.violation(f"C18:equality:raised-{type(e).__name__}", f"{lv!r} vs {q!r}: {e}", case)
@@ -207,7 +231,8 @@ def run(ctx):
         if i % 3 == 0:
             chain = sorted({float(qmag) * f for f in (0.5, 0.999, 1.0, 1.001, 2.0, 10.0)})
             try:
-                lvls = [Q(v, qu).level(lu).magnitude for v in chain]
+                with lib():
+                    lvls = [Q(v, qu).level(lu).magnitude for v in chain]
                 ctx.count("monotone_chains")
                 if any(b <= a for a, b in zip(lvls, lvls[1:])):
                     ctx.violation("C18:not-strictly-increasing", f"{fname}[{rname}] over {chain}: {lvls}", case)
